@@ -43,7 +43,14 @@ func CorpusC12() []Witness {
 	r200 := getOp(nil, &Response{Code: 200, Desc: "ok"})
 	r200204 := getOp(nil, &Response{Code: 200, Desc: "ok"}, &Response{Code: 204, Desc: "none"})
 	arrTuple := specWithBody(&Schema{Type: []string{"array"}, Items: &Items{Many: []*Schema{{Type: []string{"string"}}}}})
+	// a VALID document on which the analyser's recursion has no bound: an inline schema with properties of its own and an allOf
+	// member that refers back to an enclosing definition (propertiesFor follows allOf $refs without the visited-key test)
+	recX := &Schema{Type: []string{"object"}, Props: []KV{{K: "q", V: &Schema{Type: []string{"string"}}}}, AllOf: []*Schema{{Ref: "A"}}}
+	recA := &Schema{Type: []string{"object"}, Props: []KV{{K: "own", V: &Schema{Type: []string{"string"}}}}, AllOf: []*Schema{{Ref: "B"}}}
+	recB := &Schema{Type: []string{"object"}, Props: []KV{{K: "x", V: recX}, {K: "n", V: &Schema{Type: []string{"string"}}}}}
+	rec := specWithBody(recX, DefKV{K: "A", V: recA}, DefKV{K: "B", V: recB})
 	return []Witness{
+		{"hang:unbounded-recursion-through-allOf-ref", "self-diff of a valid spec whose inline schema (own properties + allOf: [$ref A]) is reached again through A's allOf ancestry never returns (stack overflow / out of memory)", &Sample{Kind: "self", A: rec, B: rec}},
 		{"panic:isRefType:nil-deref", "self-diff of a spec with an array schema whose items are a tuple panics (nil Items.Schema)", &Sample{Kind: "self", A: arrTuple, B: arrTuple}},
 		{"panic:compareSimpleSchema:uncomparable", "self-diff of a spec whose array parameter has an array-valued default panics (interface comparison)", corpusArrayDefault()},
 		{"panic:getTypeFromSchemaProps:nil-deref", "self-diff of a spec with a tuple-typed property (items: [..]) panics (Items.Schema is nil)", &Sample{Kind: "self", A: tuple, B: tuple}},
